@@ -11,13 +11,18 @@
 //!   run <id>                                          resume that validation up to its next store read / its end
 //!   dump                                              local store content
 //!   sput <max> <len> <hdr> <existing>                 direct `RecordStore::put` (see sput.rs)
+//!   close <r> <peers by distance>                     real `SwarmDriver` close set + upload paying the rank-r peer (closepeers.rs)
 //! path c|r; kind chunkp chunk padp pad txp tx regp reg; content C<id> | S<owner>.<n>.<v|w|n> |
 //! T<owner>.<t>.<v|i>[,...] | T- | R<id>.<g|a|b>.<ops|-> (op = <id><v|u|f|s|z>: valid / unpermitted writer /
 //! other register's address / forged signature / oversize entry) | X (undecodable);
+//! (scratchpad signature classes: v valid, d valid over other data, w wrong signer, n none; payee x / y = claimed
+//! peer-id bytes that do not decode)
 //! pay - | q,q,..;close with q = payee.signer.sig.time.content.valid.amount, close = ids joined by '.' or '-'.
 //! Output: `<result class> | <command trace>` with H/G store reads, K closest-peers query, V contract call,
 //! P<amount> payment notification, W<key>=<content> local put, F<key>:<type> fetch-completed,
 //! R<key>:<type> replication of a fresh record (R0<key>: nothing stored to replicate).
+#[path = "validate/closepeers.rs"]
+mod closepeers;
 #[path = "validate/exec.rs"]
 mod exec;
 #[path = "validate/gen.rs"]
@@ -52,9 +57,11 @@ fn fmt_out(res: &str, toks: &[String]) -> String {
 /// the six payment conditions as constructed by the op line (independent of the node code)
 pub fn all_six(d: &Delivery) -> bool {
     let Some(p) = &d.pay else { return false };
-    let sigs = p.quotes.iter().all(|q| q.sig && q.signer == q.payee);
+    // every quote validly signed by the node it claims to come from: a claimed id that does not even decode fails
+    let undec = |q: &QuoteD| q.payee == UNDEC_FF || q.payee == UNDEC_EMPTY;
+    let sigs = p.quotes.iter().all(|q| !undec(q) && q.sig && q.signer == q.payee);
     let self_payee = p.quotes.iter().any(|q| q.payee == 0);
-    let close = p.quotes.iter().all(|q| p.close.contains(&q.payee));
+    let close = p.quotes.iter().all(|q| undec(q) || p.close.contains(&q.payee));
     let fresh = p.quotes.iter().all(|q| q.time == 'f' || q.time == 'b');
     let chain = p.quotes.len() == 3 && p.quotes.iter().all(|q| q.valid);
     let own_for_addr = p.quotes.iter().filter(|q| q.signer == 0).all(|q| q.content);
@@ -204,7 +211,7 @@ fn oracle_after(ctx: &Ctx, d: &Delivery, res: &str, before: &Store, out: &mut Ou
     }
     let now = ctx.world.store.get(&key.to_vec()).map(|r| describe(&key, r));
     match &d.content {
-        DContent::Pad { n, sig: PadSig::Valid, .. } => {
+        DContent::Pad { n, sig: PadSig::Valid | PadSig::ValidOther, .. } => {
             let ok = now.as_deref().and_then(pad_counter).map(|(c, v)| v && c >= *n).unwrap_or(false);
             if !ok {
                 out.oracle_fail("C07:highest-valid-version-kept", &hist, &format!("valid scratchpad version {n} delivered but the store holds {now:?}"));
@@ -327,6 +334,11 @@ pub fn exec_line(ctx: &mut Ctx, line: &str, out: &mut Out) -> String {
             ctx.history.push(line.to_string());
             format!("store {}", dump_store(&ctx.world.store))
         }
+        Some("close") if ws.len() == 3 => {
+            ctx.history = vec![line.to_string()];
+            ctx.overlapped = false;
+            closepeers::exec(ctx, ws[1], ws[2], line, out)
+        }
         Some("sput") => {
             out.count(&format!("sput:{}:{}", ws.get(3).unwrap_or(&"?"), ws.get(4).unwrap_or(&"?")));
             let r = sput::exec(&ws[1..]);
@@ -367,7 +379,7 @@ fn main() {
         };
         let Some(line) = line else { break };
         let o = exec_line(&mut ctx, &line, &mut out);
-        if line.starts_with("case") || line.starts_with("deliver") || line.starts_with("sput") || line.starts_with("begin") {
+        if line.starts_with("case") || line.starts_with("deliver") || line.starts_with("sput") || line.starts_with("begin") || line.starts_with("close") {
             out.nontrivial_case(&line);
         }
         out.line(line.clone(), o);
